@@ -99,5 +99,34 @@ func factsCreateNonce() {
 	emitStr("evmCreateNonceAfter", v, "ApplyMessageWithConfig, contract creation: the sender's nonce after evm.Create")
 }
 
+// the EIP-712 routes build their signed document from the fee amount and the gas limit only: do they refuse a
+// transaction that names a fee granter?
+func init() { moreFacts = append(moreFacts, factsEIP712Granter) }
+
+func factsEIP712Granter() {
+	var out [][2]string
+	site := func(name string, fd *ast.FuncDecl, cond string) {
+		v := "missing"
+		if fd != nil {
+			v = "granter-not-refused"
+			ast.Inspect(fd.Body, func(n ast.Node) bool {
+				if ifs, ok := n.(*ast.IfStmt); ok && strings.Contains(strings.Join(strings.Fields(src(ifs.Cond)), " "), cond) {
+					for _, st := range ifs.Body.List {
+						if _, ok := st.(*ast.ReturnStmt); ok {
+							v = "granter-refused"
+						}
+					}
+				}
+				return true
+			})
+		}
+		out = append(out, [2]string{name, v})
+	}
+	site("eip712.decodeProtobufSignDoc", funcDecl("ethereum/eip712/encoding.go", "", "decodeProtobufSignDoc"), `authInfo.Fee.Granter != ""`)
+	site("eip712.legacyDecodeProtobufSignDoc", funcDecl("ethereum/eip712/encoding_legacy.go", "", "legacyDecodeProtobufSignDoc"), `authInfo.Fee.Granter != ""`)
+	site("ante.LegacyEip712SigVerification.VerifySignature", funcDecl("app/ante/cosmos/eip712.go", "", "VerifySignature"), `len(feeTx.FeeGranter()) != 0`)
+	emitPairs("eip712FeeGranter", out, "per EIP-712 signature path (typed data built from fee amount and gas limit only): is a transaction naming a fee granter refused")
+}
+
 func isAssign(n ast.Stmt) bool { _, ok := n.(*ast.AssignStmt); return ok }
 func isIf(n ast.Stmt) bool     { _, ok := n.(*ast.IfStmt); return ok }
